@@ -235,6 +235,31 @@ def wrapper(monitor, verdict='Verdict(obs)', extra_defs='', suffix=''):
     return (name, text)
 
 
+def via_tls(sc):
+    """The same scenario over wss:// (TLS wrapping of the simulated socket)."""
+    import copy
+    sc2 = copy.deepcopy(sc)
+    sc2['url'] = 'wss://example.com/'
+    return sc2
+
+
+def via_proxy(sc):
+    """The same scenario through an HTTP proxy that answers 200 (the CONNECT request is the first write)."""
+    import copy
+    sc2 = copy.deepcopy(sc)
+    sc2['ws_kwargs'] = dict(sc2.get('ws_kwargs') or {}, proxies={"http": "http://proxy.local:3128", "https": "http://proxy.local:3128"})
+    conn = sc2['conns'][0]
+    conn['writes'] = ['ok'] + list(conn.get('writes') or [])
+    conn['proxy_reply'] = {"cls": "ok200_headers", "cut": "two"}
+    return sc2
+
+
+def sampled(sc, b, every=7):
+    """Deterministic 1-in-`every` selection of behaviours for the more expensive variants."""
+    import hashlib
+    return int(hashlib.sha1(json.dumps(b.get('script'), sort_keys=True).encode()).hexdigest(), 16) % every == 0
+
+
 def reseg(sc, how):
     """Variant of a scenario with the same server byte stream cut differently into reads:
     every data step is replaced by one 'drain' step placed where the first data step was."""
